@@ -715,7 +715,7 @@ def random_spec(rng, quick):
 def gen(ctx):
     quick = ctx.tier == 'quick'
     rng = ctx.rng('gen')
-    n = 45 if quick else 9000
+    n = 120 if quick else 9000
     for _ in range(n):
         yield random_spec(rng, quick)
 
